@@ -75,7 +75,9 @@ def p_st():
 
 def n_st():
     return st.one_of(st.integers(1, 300), st.integers(1, 20),
-                     st.floats(0, 12).map(lambda u: max(1, int(10 ** u))))
+                     st.floats(0, 12).map(lambda u: max(1, int(10 ** u))),
+                     # a fractional estimate (len(items) * 1.5): accepted by the constructors and used as it is by the formulas
+                     st.tuples(st.integers(1, 3000), st.sampled_from([0.5, 0.25, 0.4, 0.9, 0.1])).map(lambda t: t[0] + t[1]))
 
 
 def strategy(tier):
@@ -138,7 +140,7 @@ def _bloom_case(case, ctx):
         x = -n * math.log(p32) / LN2SQ if 0 < p32 < 1 else float("inf")
     except ValueError:
         x = float("inf")
-    clearly_valid = 1 <= n <= 10 ** 6 and 1e-30 <= p <= 0.5
+    clearly_valid = n == int(n) and 1 <= n <= 10 ** 6 and 1e-30 <= p <= 0.5
     big = not (x < 2 ** 22 and (cls != "counting" or x < 2 ** 20))
     sizing = getattr(BloomFilter, "_get_optimized_params", None)
     if big:
@@ -180,7 +182,10 @@ def _bloom_case(case, ctx):
         ctx.feat("cls_" + cls)
         ctx.check("C07.bloom_fpr32", f.false_positive_rate == p32,
                   f"p={p!r}: reported {f.false_positive_rate!r} != float32 {p32!r}")
-        ctx.check("C07.bloom_fpr32", f.estimated_elements == n, "estimated_elements")
+        if n == int(n):
+            ctx.check("C07.bloom_fpr32", f.estimated_elements == n, "estimated_elements")
+        else:
+            ctx.feat("fractional_estimate")
         _check_geom(ctx, n, p32, m, k)
         cells, cs = (m, 4) if cls == "counting" else (math.ceil(m / 8), 1)
         ctx.check("C07.bloom_lengths", f.bloom_length == cells, f"bloom_length {f.bloom_length} != {cells} (m={m})")
@@ -195,7 +200,22 @@ def _bloom_case(case, ctx):
         f3 = BloomFilter(f.estimated_elements, f.false_positive_rate)
         ctx.check("C07.bloom_stable", (f3.number_bits, f3.number_hashes, f3.false_positive_rate) == (m, k, p32),
                   lambda: f"sizing the reported values again gives ({f3.number_bits},{f3.number_hashes}) != ({m},{k})")
-        if cells * cs <= 1 << 18:
+        raw = None
+        if n != int(n):
+            # not exportable on the pinned tree (struct.error: the footer field is an integer): counted, not judged - but IF it can
+            # be exported, the reload below must have the geometry of the original
+            try:
+                raw = bytes(f)
+                ctx.feat("fractional_estimate_exported")
+            except struct.error:
+                ctx.feat("fractional_estimate_not_exportable")
+                ctx.nt()
+                ctx.op(cls, n, p32, m, k)
+                return
+            g = (CountingBloomFilter if cls == "counting" else BloomFilter).frombytes(raw)
+            ctx.check("C07.bloom_stable", (g.number_bits, g.number_hashes, g.false_positive_rate, g.bloom_length) == (m, k, p32, cells),
+                      lambda: f"n={n}: geometry after frombytes ({g.number_bits},{g.number_hashes}) differs from the original ({m},{k})")
+        elif cells * cs <= 1 << 18:
             raw = bytes(f)
             ctx.check("C07.bloom_lengths", len(raw) == cells * cs + 20, f"len(bytes()) {len(raw)} != {cells*cs+20}")
             g = (CountingBloomFilter if cls == "counting" else BloomFilter).frombytes(raw)
